@@ -90,6 +90,39 @@ def run(ctx):
                     G.remove_edge(*r.choice(es))
                 else:
                     G.add_node(max(G) + 1)
+        # views: the argument is a networkx VIEW (subgraph / edge_subgraph / filtered view) of a parent graph that is
+        # edited between calls; a view is a graph object of its own whose degrees change with the parent
+        for _ in range(ctx.scale(40, 300)):
+            P = gen.random_graph(r, 6, 12)
+            nodes = list(P)
+            keep = r.sample(nodes, r.randint(3, len(nodes) - 1))
+            vk = r.choice(["subgraph", "subgraph", "subgraph_view", "edge_subgraph"])
+            if vk == "subgraph":
+                H = P.subgraph(keep)
+            elif vk == "subgraph_view":
+                ks = set(keep)
+                H = nx.subgraph_view(P, filter_node=lambda u, ks=ks: u in ks)
+            else:
+                es = list(P.edges())
+                if not es:
+                    continue
+                H = P.edge_subgraph(r.sample(es, r.randint(1, len(es))))
+                keep = list(H)
+            for step in range(3):
+                if H.order() > 0:
+                    yield H, "view:%s-step%d" % (vk, step)
+                inside = [u for u in keep if u in P]
+                es = [e for e in P.edges() if e[0] in inside and e[1] in inside]
+                non = [(u, v) for i, u in enumerate(inside) for v in inside[i + 1:] if not P.has_edge(u, v)]
+                kind = r.choice(["add-edge", "add-edge", "del-edge", "del-node"])
+                if kind == "add-edge" and non and vk != "edge_subgraph":
+                    P.add_edge(*r.choice(non))
+                elif kind == "del-edge" and es:
+                    P.remove_edge(*r.choice(es))
+                elif kind == "del-node" and len(inside) > 2:
+                    P.remove_node(r.choice(inside))
+                elif es:
+                    P.remove_edge(*r.choice(es))
     for G, tag in graphs():
         r = ctx.rng
         if G.number_of_edges() == 0 and r.random() < 0.7:
